@@ -69,7 +69,20 @@ def rule_ring_marks(ck, repo, R):
     inner = [n for n in outer.body if isinstance(n, ast.For)]
     ck.require(len(inner) == 1, 'calc_labels: inner loop over neighbours not found')
     first = inner[0].body[0]
-    ck.decide(isinstance(first, ast.Assign) and src(first.targets[0]) == 'bond._in_ring', R, 'bond-ring-mark-first', src(first)[:60],
+    def assigns_mark(st):
+        """the statement assigns bond._in_ring on every path (plain assignment, or an if/else whose arms both start with it)"""
+        if isinstance(st, ast.Assign):
+            return src(st.targets[0]) == 'bond._in_ring'
+        if isinstance(st, ast.If) and st.orelse:
+            return all(any(assigns_mark(x) for x in blk) and not any(isinstance(y, (ast.Continue, ast.Break, ast.Return)) for x in blk for y in ast.walk(x))
+                       for blk in (st.body, st.orelse))
+        return False
+    lead = []
+    for st_ in inner[0].body:  # pure local assignments may precede it
+        lead.append(st_)
+        if assigns_mark(st_) or not (isinstance(st_, ast.Assign) and isinstance(st_.targets[0], ast.Name)):
+            break
+    ck.decide(assigns_mark(lead[-1]), R, 'bond-ring-mark-first', src(first)[:60],
               'bond._in_ring is no longer assigned as the first statement of the neighbour loop (a `continue` for coordinate bonds would skip it)', file=f.file, line=first.lineno, func=f.qualname)
     srcs = {src(n) for n in ast.walk(f.node) if isinstance(n, ast.Attribute) and src(n.value) == 'self'}
     ck.decide(srcs == {'self._atoms', 'self._bonds', 'self.atoms_rings', 'self.atoms_rings_sizes'}, R, 'label-sources', sorted(srcs),
@@ -249,6 +262,14 @@ def rule_tentative_rollback(ck, repo, R, funcs):
             if isinstance(n, ast.If) and isinstance(n.test, ast.Name) and any(isinstance(c, ast.Call) and isinstance(c.func, ast.Attribute) and c.func.attr == 'flush_cache'
                                                                               for s in n.body for c in ast.walk(s)):
                 witnesses.add(n.test.id)
+        # ... or a flush reached only past a guard clause `if not W: return ..`
+        from .astutil import reach_conditions, enclosing_map
+        pm_ = enclosing_map(f.node)
+        for c in ast.walk(f.node):
+            if isinstance(c, ast.Call) and isinstance(c.func, ast.Attribute) and c.func.attr == 'flush_cache':
+                for cond in reach_conditions(c, f.node, pm_):
+                    if isinstance(cond, ast.Name):
+                        witnesses.add(cond.id)
         ck.require(witnesses, f'{fq}: no witness-guarded flush found')
 
         def is_commit(s):
